@@ -27,7 +27,9 @@ Inductive fm_op :=
 | FErase (k : N)
 | FClear
 | FAtC (k : N)            (* cm.at(k)        through a const FlatMap & of the same map *)
-| FAtIndexC (i : N).      (* cm.at_index(i)  through a const FlatMap &                 *)
+| FAtIndexC (i : N)       (* cm.at_index(i)  through a const FlatMap &                 *)
+| FCopy.                  (* FlatMap c(m); <mutate m>; FlatMap c2(std::move(c)); m = c2;  - the implicit copy
+                             constructor / assignment copy the vector (value semantics), there is no move *)
 
 Inductive fm_out :=
 | OVal (v : N) | OThrow | OItem (k v : N) | ONum (n : N) | OBool (b : bool) | OUnit.
@@ -73,6 +75,7 @@ Definition fm_step (m : fm) (o : fm_op) : fm * fm_out :=
   | FAtIndexC i => (m, match nth_error m (N.to_nat i) with
                        | Some (k, v) => OItem k v
                        | None => OThrow end)
+  | FCopy => (m, OUnit)
   end.
 
 (* the operations that go through a const member function (size, empty, contains have only a
@@ -100,7 +103,7 @@ Definition fm_op_conv (t : conv_tbl) (o : fm_op) : fm_op :=
   | FContains a => FContains (conv t a)
   | FErase a => FErase (conv t a)
   | FAtC a => FAtC (conv t a)
-  | FAtIndex _ | FAtIndexC _ | FSize | FEmpty | FClear => o
+  | FAtIndex _ | FAtIndexC _ | FSize | FEmpty | FClear | FCopy => o
   end.
 
 Definition fm_step_conv (t : conv_tbl) (m : fm) (o : fm_op) : fm * fm_out := fm_step m (fm_op_conv t o).
@@ -196,3 +199,86 @@ Definition po_step (s : po) (o : po_op) : po * fm_out :=
 Definition po_run (ops : list po_op) : po * list (fm_out * po) :=
   fold_left (fun '(s, acc) o => let '(s', out) := po_step s o in (s', acc ++ [(out, s')]))
             ops ([], []).
+
+(* ------------------------------------------- two ParameterizedObjects after a copy *)
+(* The implicit copy constructor / assignment of ParameterizedObject copies the vector of shared_ptr<Param>:
+   the copy has its OWN list (keys, order) but SHARES the Param objects that existed at the time of the copy
+   (the source says so: "Use std::shared_ptr because copy/move of a ParameterizedObject would end up copying
+   parameters").  Heap of Params + one list of heap indices per object. *)
+Definition heap := list param.
+
+Fixpoint find_ix (h : heap) (l : list nat) (n : N) : option nat :=
+  match l with
+  | [] => None
+  | i :: r => match nth_error h i with
+              | Some p => if N.eqb (p_name p) n then Some i else find_ix h r n
+              | None => find_ix h r n
+              end
+  end.
+
+Fixpoint h_upd (h : heap) (i : nat) (f : param -> param) : heap :=
+  match h, i with
+  | [], _ => []
+  | p :: r, O => f p :: r
+  | p :: r, S j => p :: h_upd r j f
+  end.
+
+Fixpoint remove_ix (l : list nat) (i : nat) : list nat :=
+  match l with
+  | [] => []
+  | j :: r => if Nat.eqb j i then r else j :: remove_ix r i
+  end.
+
+Definition obj_step (h : heap) (l : list nat) (o : po_op) : heap * list nat * fm_out :=
+  match o with
+  | PHas n => (h, l, OBool (match find_ix h l n with Some _ => true | None => false end))
+  | PSet n form v =>
+      match find_ix h l n with
+      | Some i => (h_upd h i (fun p => {| p_name := p_name p; p_data := store_of form v; p_query := p_query p |}), l, OUnit)
+      | None => (h ++ [{| p_name := n; p_data := store_of form v; p_query := false |}], l ++ [length h], OUnit)
+      end
+  | PGet n tag dflt =>
+      match find_ix h l n with
+      | None => (h, l, OVal dflt)
+      | Some i =>
+          match nth_error h i with
+          | Some p =>
+              match p_data p with
+              | Some (t, v) =>
+                  if N.eqb t tag
+                  then (h_upd h i (fun p => {| p_name := p_name p; p_data := p_data p; p_query := true |}), l, OVal v)
+                  else (h, l, OVal dflt)
+              | None => (h, l, OVal dflt)
+              end
+          | None => (h, l, OVal dflt)
+          end
+      end
+  | PRemove n => (h, match find_ix h l n with Some i => remove_ix l i | None => l end, OUnit)
+  | PReset =>
+      (fold_left (fun h' i => h_upd h' i (fun p => {| p_name := p_name p; p_data := p_data p; p_query := false |})) l h, l, OUnit)
+  | PFindAdd n =>
+      match find_ix h l n with
+      | Some _ => (h, l, OUnit)
+      | None => (h ++ [{| p_name := n; p_data := None; p_query := false |}], l ++ [length h], OUnit)
+      end
+  end.
+
+Record po2 := mkPo2 { p2_h : heap; p2_a : list nat; p2_b : list nat }.
+
+Inductive po2_op :=
+| QA (o : po_op)          (* an operation on object a                   *)
+| QB (o : po_op)          (* an operation on object b                   *)
+| QCopyAB                 (* b = a  (copy assignment / construction)    *)
+| QCopyBA.                (* a = b                                      *)
+
+Definition po2_step (s : po2) (q : po2_op) : po2 * fm_out :=
+  match q with
+  | QA o => let '(h, l, out) := obj_step (p2_h s) (p2_a s) o in (mkPo2 h l (p2_b s), out)
+  | QB o => let '(h, l, out) := obj_step (p2_h s) (p2_b s) o in (mkPo2 h (p2_a s) l, out)
+  | QCopyAB => (mkPo2 (p2_h s) (p2_a s) (p2_a s), OUnit)
+  | QCopyBA => (mkPo2 (p2_h s) (p2_b s) (p2_b s), OUnit)
+  end.
+
+(* what an object's list of parameters looks like (the dump) *)
+Definition p2_view (h : heap) (l : list nat) : po :=
+  flat_map (fun i => match nth_error h i with Some p => [p] | None => [] end) l.
